@@ -79,6 +79,8 @@ pub struct Config {
     /// R22: names of `&mut` parameters / bindings that the function never writes through: their type becomes `&T`, `&mut name`
     /// becomes `&name`, and `as_mut` / `iter_mut` become `as_ref` / `iter` (rustc rejects the result if a write remains)
     pub demote_mut: Vec<String>,
+    /// R23: helper functions (same file) whose body is one expression - an iterator chain over their parameter - inlined at call sites
+    pub inline_fns: BTreeMap<String, syn::ItemFn>,
 }
 
 fn strs(v: &Value) -> Vec<String> {
@@ -430,6 +432,82 @@ impl<'a> MacroPass<'a> {
                 }
             }
         }
+    }
+}
+
+/// R23: see Config::inline_fns
+struct InlineIterPass<'a> {
+    fns: &'a BTreeMap<String, syn::ItemFn>,
+    counts: &'a mut Counts,
+    err: Option<String>,
+    depth: u32,
+}
+
+struct SubstIdent<'a> {
+    from: &'a str,
+    to: &'a syn::Expr,
+}
+
+impl<'a> VisitMut for SubstIdent<'a> {
+    fn visit_expr_mut(&mut self, e: &mut syn::Expr) {
+        if let syn::Expr::Path(p) = e {
+            if p.path.is_ident(self.from) {
+                *e = self.to.clone();
+                return;
+            }
+        }
+        visit_mut::visit_expr_mut(self, e);
+    }
+}
+
+impl<'a> VisitMut for InlineIterPass<'a> {
+    fn visit_expr_mut(&mut self, e: &mut syn::Expr) {
+        visit_mut::visit_expr_mut(self, e);
+        let (name, args) = match e {
+            syn::Expr::Call(c) => match &*c.func {
+                syn::Expr::Path(p) => match p.path.get_ident() {
+                    Some(id) if self.fns.contains_key(&id.to_string()) => (id.to_string(), c.args.iter().cloned().collect::<Vec<_>>()),
+                    _ => return,
+                },
+                _ => return,
+            },
+            _ => return,
+        };
+        if self.depth > 8 {
+            self.err = Some("unsupported construct: recursive iterator helper".into());
+            return;
+        }
+        let hf = &self.fns[&name];
+        let body = match hf.block.stmts.as_slice() {
+            [syn::Stmt::Expr(x, None)] => x.clone(),
+            _ => {
+                self.err = Some(format!("unsupported construct: helper {} is not expression-bodied", name));
+                return;
+            }
+        };
+        let mut params: Vec<String> = vec![];
+        for a in hf.sig.inputs.iter() {
+            match a {
+                syn::FnArg::Typed(pt) => match &*pt.pat {
+                    syn::Pat::Ident(pi) => params.push(pi.ident.to_string()),
+                    _ => { self.err = Some(format!("unsupported construct: parameter pattern of helper {}", name)); return; }
+                },
+                _ => { self.err = Some(format!("unsupported construct: method helper {}", name)); return; }
+            }
+        }
+        if params.len() != args.len() || args.iter().any(|a| !matches!(a, syn::Expr::Path(_))) {
+            self.err = Some(format!("unsupported construct: helper {} is not called with plain variables", name));
+            return;
+        }
+        let mut new = body;
+        for (p, a) in params.iter().zip(args.iter()) {
+            SubstIdent { from: p, to: a }.visit_expr_mut(&mut new);
+        }
+        bump(self.counts, "R23.inline_iter_helper");
+        self.depth += 1;
+        self.visit_expr_mut(&mut new);
+        self.depth -= 1;
+        *e = new;
     }
 }
 
@@ -2326,6 +2404,15 @@ pub fn apply_to_fn(
         for (k, u) in cfg.inject_use.iter().enumerate() {
             let tree: syn::ItemUse = syn::parse_str(&format!("use {};", u)).map_err(|e| format!("bad recipe: inject_use: {}", e))?;
             f.block.stmts.insert(k, syn::Stmt::Item(syn::Item::Use(tree)));
+        }
+    }
+    // R23: `helper(arg)` -> the helper's body expression with its parameter replaced by the argument (the helper is expression-bodied
+    // and its argument is a variable, so the replacement is the definition of the call); applied to a fixpoint (helpers of helpers)
+    if !cfg.inline_fns.is_empty() {
+        let mut p = InlineIterPass { fns: &cfg.inline_fns, counts, err: None, depth: 0 };
+        p.visit_block_mut(&mut f.block);
+        if let Some(e) = p.err {
+            return Err(e);
         }
     }
     // R22
